@@ -1323,7 +1323,7 @@ impl SolarDay {
         count = day_counts[usize::from_str(&data[i + 1..i + 2]).unwrap()];
         days += count;
       }
-      if day_index <= days {
+      if day_index < days {
         day_index -= days - count;
         break;
       }
